@@ -23,18 +23,23 @@ fn dedup(mut v: Vec<u64>) -> Vec<u64> {
 /// Extreme values for a *length* prefix when `rem` bytes follow it: small
 /// values, values around `rem`, powers of two, and the neighbourhoods of 2^63
 /// and 2^64 (values that turn negative as i64 or wrap when added to a position).
-pub fn len_extremes(rem: u64) -> Vec<u64> {
+pub fn len_extremes(rem: u64, thorough: bool) -> Vec<u64> {
     let mut v = vec![0, 1, 2, rem.saturating_sub(1), rem, rem + 1, rem + 2, 127, 128, 255, 256, 16383, 16384, 1000];
-    for p in [31u32, 32, 33, 40, 47, 48, 62] {
-        v.push((1u64 << p) - 1);
-        v.push(1u64 << p);
+    if thorough {
+        for p in [31u32, 32, 33, 40, 47, 48, 62] {
+            v.push((1u64 << p) - 1);
+            v.push(1u64 << p);
+        }
+    } else {
+        v.extend([(1u64 << 31) - 1, 1 << 31, (1 << 32) - 1, 1 << 32, 1 << 33, 1 << 40, 1 << 47, 1 << 62]);
     }
     v.push((1u64 << 32) + rem);
-    for d in 1..=16u64 {
+    let near63: Vec<u64> = if thorough { (1..=16).collect() } else { vec![1, 2, 3, 8, 16] };
+    for d in &near63 {
         v.push((1u64 << 63) - d);
     }
     v.push(1u64 << 63);
-    for d in 1..=16u64 {
+    for d in &near63 {
         v.push((1u64 << 63) + d);
     }
     for d in (1..=32u64).rev() {
@@ -143,6 +148,7 @@ pub struct FaultPlan {
     pub int_fields: bool,
     pub wire_types: bool,
     pub odd_encodings: bool,
+    pub thorough: bool,
 }
 
 impl FaultPlan {
@@ -155,10 +161,11 @@ impl FaultPlan {
             int_fields: true,
             wire_types: true,
             odd_encodings: true,
+            thorough: false,
         }
     }
     pub fn all_bytes() -> FaultPlan {
-        FaultPlan { subst: (0..=255u8).collect(), flip_low_bit: false, ..FaultPlan::standard() }
+        FaultPlan { subst: (0..=255u8).collect(), flip_low_bit: false, thorough: true, ..FaultPlan::standard() }
     }
 }
 
@@ -170,7 +177,7 @@ pub fn protobuf_faults(seed: u16, m: &Msg, plan: &FaultPlan, out: &mut Vec<Fault
     if plan.len_fields {
         for s in m.spans.iter().filter(|s| s.wire == 2) {
             let rem = (buf.len() - (s.val_off + s.val_len)) as u64;
-            for v in len_extremes(rem) {
+            for v in len_extremes(rem, plan.thorough) {
                 let with = vi(v);
                 if with[..] == buf[s.val_off..s.val_off + s.val_len] {
                     continue;
